@@ -1,8 +1,23 @@
 """C09 - capacity primitives never over-admit or leak, wake in order, and let time pass.
 
-Part A: Resource / Grant (ghost `g_held` = sum of the amounts of unreleased grants).
-See DESIGN.md section 3-C09.  The concurrency models (FixedConcurrency, DynamicConcurrency,
-WeightedConcurrency) are under contract in specs/C08.py part B and are not repeated here.
+A  Resource / Grant: ghost `g_held` = sum of the amounts of unreleased grants, arrival tickets for FIFO wake-up.
+B  Mutex, Semaphore, RWLock, Barrier, Condition: try/release/wake functions, then the blocking generators
+   (acquire / wait) with the progress clause `blocked-process-parks-instead-of-polling-at-zero-delay`.
+C  ConnectionPool: acquire (generator, three paths), release, _handle_warmup.
+D  PreemptibleResource / PreemptibleGrant (wait queue = heapq bag ordered by (priority, arrival)).
+E  Bulkhead admission (handle_event, _enqueue_request).
+The concurrency models (FixedConcurrency, DynamicConcurrency, WeightedConcurrency) are under contract in
+specs/C08.py part B and are not repeated here.  See DESIGN.md section 3-C09.
+
+Genuine defects of the pinned tree found here (each has a repair under /verif/fixes and is exit 0 with it):
+  * ConnectionPool.acquire / _handle_warmup: `inv:ConnectionPool.never-more-connections-than-max` - the slot is
+    counted only after the set-up delay (fixes/C09_pool-reserve-slot.diff, native: triage/c09.py);
+  * Mutex/Semaphore/RWLock(x2)/Barrier/Condition blocking generators:
+    `blocked-process-parks-instead-of-polling-at-zero-delay` - `while not flag: yield 0.0` freezes the clock
+    (fixes/C09_sync-wait-on-future.diff, native: findings/c09_spin_wait.py);
+  * PreemptibleResource.acquire: `inv:PreemptibleResource.granted-as-soon-as-capacity-allows@exit` - capacity freed
+    by a preemption is not offered to the queue head (fixes/C09_preempt-wake-after-preemption.diff,
+    native: findings/c09_preempt_idle_capacity.py).
 """
 from pyvc.spec import *
 
@@ -225,8 +240,152 @@ loop(F_CND, "Condition.notify", 1, modifies=[("Condition", "_waiters")], inv=_DR
 loop(F_CND, "Condition.notify_all", 1, modifies=[("Condition", "_waiters")], inv=_DRAIN_INV + [
     ("counts-the-woken", lambda L: (L.woken == slen(L.self.g_q0) - slen(L.self._waiters)) & (L.woken >= 0))])
 
+# ---- blocking acquire generators: the wait loop suspends, so it is cut with modifies="world"; the class
+# invariant is the loop invariant, the woken-flag list of the closure is havoc'd (another process sets it)
+def _cls_inv(key, name):
+    return ("inv:" + name, lambda L, k=key, n=name: dict(REG.classes[_K[k]].inv)[n](L.self))
+
+
+def _flag_ok(flag):
+    return ("flag-cell", lambda L: slen(getattr(L, flag)) == 1)
+
+
+def joined_tail(o, w, q_at_call):
+    """ghost assertion placed right after `self._waiters.append(waiter)` of a blocking acquire: the blocked
+    caller joined the END of the arrival queue, once (`q_at_call` = the queue when the call started; the
+    call has not suspended in between)"""
+    oblige("blocked-acquirer-joins-the-tail-of-the-queue-once", mk_bool(
+        seq_term(o._waiters) == z3.Concat(seq_term(q_at_call), z3.Unit(w._ref))), kind="post")
+
+
+_JOIN = "import specs.C09 as _S; _S.joined_tail(self, waiter, _g_q_at_call)"
+# frame of the world-havoc at a suspending wait loop: fields that are never written after construction
+_EKEEP = [("Entity", "_clock"), ("Entity", "name"), ("Condition", "_lock"), ("Semaphore", "_capacity"),
+          ("RWLock", "_max_readers"), ("Barrier", "_parties"), ("_Waiter", "callback"), ("_Waiter", "enqueue_time_ns"),
+          ("_BarrierWaiter", "callback"), ("_BarrierWaiter", "enqueue_time_ns")]
+for _f, _q in ((F_MUT, "Mutex.acquire"), (F_SEM, "Semaphore.acquire"), (F_RWL, "RWLock.acquire_read"),
+               (F_RWL, "RWLock.acquire_write"), (F_BAR, "Barrier.wait"), (F_CND, "Condition.wait")):
+    ghost(_f, _q, None, "_g_q_at_call = list(self._waiters)", where="entry")
+    ghost(_f, _q, "self._waiters.append(waiter)", _JOIN)
+
+
+def mark_granted():
+    """ghost: the next yield directly follows a successful try_acquire (the caller got what it asked for)"""
+    from pyvc import ctx as _ctx
+    _ctx.cur().ghost_args["granted_before_yield"] = True
+
+
+def take_granted():
+    from pyvc import ctx as _ctx
+    return bool(_ctx.cur().ghost_args.pop("granted_before_yield", False))
+
+
+# the first `yield 0.0` in body order is the one of the fast path `if self.try_acquire(..): yield 0.0; return`
+for _f, _q in ((F_MUT, "Mutex.acquire"), (F_SEM, "Semaphore.acquire"), (F_RWL, "RWLock.acquire_read"),
+               (F_RWL, "RWLock.acquire_write")):
+    ghost(_f, _q, "yield 0.0", "import specs.C09 as _S; _S.mark_granted()", where="before")
+
+loop(F_MUT, "Mutex.acquire", 1, modifies="world", keeps=_EKEEP, types={"acquired": lambda: Seq(Bool)}, inv=[
+    _cls_inv("Mutex", "locked-iff-exactly-one-holder"), _cls_inv("Mutex", "nobody-waits-for-a-free-lock"), _flag_ok("acquired"),
+    # rely (see Mutex.release/hands-over...): the callback is only invoked by a release that keeps the lock locked for us
+    ("woken-means-the-lock-was-handed-over", lambda L: implies(L.acquired[0], L.self._locked))])
+loop(F_SEM, "Semaphore.acquire", 1, modifies="world", keeps=_EKEEP + [("Semaphore", "_capacity")],
+     types={"acquired": lambda: Seq(Bool)}, inv=[
+    _cls_inv("Semaphore", "capacity-positive"), _cls_inv("Semaphore", "never-over-admitted"),
+    _cls_inv("Semaphore", "held-plus-available-is-capacity"), _cls_inv("Semaphore", "queue-ok"), _flag_ok("acquired")])
+for _q in ("RWLock.acquire_read", "RWLock.acquire_write"):
+    loop(F_RWL, _q, 1, modifies="world", keeps=_EKEEP + [("RWLock", "_max_readers")], types={"acquired": lambda: Seq(Bool)}, inv=[
+        _cls_inv("RWLock", "writer-excludes-everyone"), _cls_inv("RWLock", "readers-within-limit"), _flag_ok("acquired")])
+loop(F_BAR, "Barrier.wait", 1, modifies="world", keeps=_EKEEP + [("Barrier", "_parties")], types={"released": lambda: Seq(Bool)}, inv=[
+    _cls_inv("Barrier", "parties-positive"), _cls_inv("Barrier", "fewer-waiters-than-parties"), _flag_ok("released"),
+    ("arrival-index-in-range", lambda L: (0 <= L.arrival_index) & (L.arrival_index < L.self._parties))])
+loop(F_CND, "Condition.wait", 1, modifies="world", keeps=_EKEEP + [("Condition", "_lock")], types={"woken": lambda: Seq(Bool)}, inv=[
+    _flag_ok("woken"),
+    ("lock:locked-iff-exactly-one-holder", lambda L: dict(REG.classes[_K["Mutex"]].inv)["locked-iff-exactly-one-holder"](L.self._lock)),
+    ("lock:nobody-waits-for-a-free-lock", lambda L: dict(REG.classes[_K["Mutex"]].inv)["nobody-waits-for-a-free-lock"](L.self._lock))])
+
+# ---------------------------------------------------------------------------- D. preemptible resource
+F_PRE = "happysimulator/components/industrial/preemptible_resource.py"
+from pyvc.comp import declare_filter  # noqa: E402
+declare_filter(F_PRE, "PreemptibleResource._do_release", 1)      # [g for g in self._active_grants if not g.released]
+ghost(F_PRE, "PreemptibleGrant.__init__", "self._on_preempt = on_preempt",
+      "self._resource.g_held = self._resource.g_held + self._amount")
+ghost(F_PRE, "PreemptibleGrant.release", "self._released = True", "self._resource.g_held = self._resource.g_held - self._amount")
+ghost(F_PRE, "PreemptibleGrant._do_preempt", "self._released = True", "self._resource.g_held = self._resource.g_held - self._amount")
+ghost(F_PRE, "PreemptibleResource._wake_waiters", None,
+      "self.g_total0 = self._available + self.g_held; self.g_avail0 = self._available", where="entry")
+# a blocked acquirer's future carries its arrival number (= insert_order of its queue entry)
+ghost(F_PRE, "PreemptibleResource.acquire", "self._contentions += 1", "future.g_ticket = self._insert_counter")
+
+
+def pw_lt(a, b):
+    d = _K["PW"].dt
+    return z3.Or(d.priority(a) < d.priority(b), z3.And(d.priority(a) == d.priority(b), d.insert_order(a) < d.insert_order(b)))
+
+
+def pq_cnt(o):
+    return _K["PHEAP"].dt.cnt(o._waiters.term)
+
+
+def pre_queue_ok(o):
+    """every queued request: satisfiable amount, issued arrival number, pending future tagged with that number;
+    an arrival number names one entry (so the head is unique and no future is queued twice)"""
+    d = _K["PW"].dt
+    cnt = pq_cnt(o)
+    fr = _pctx_cur().heap
+    res = fr.array(("SimFuture", "_resolved"), Bool, o._frozen)
+    tick = fr.array(("SimFuture", "g_ticket"), Int, o._frozen)
+    cap, ctr = num(o._capacity), num(o._insert_counter)
+    return (o._insert_counter >= 0) & forall(Raw(d), lambda x: mk_bool(z3.Implies(z3.Select(cnt, x) > 0, z3.And(
+        z3.Select(cnt, x) <= 1, d.amount(x) >= 1, d.amount(x) <= cap, d.insert_order(x) >= 0, d.insert_order(x) < ctr,
+        d.future(x) >= 1, d.future(x) <= fr.alloc, z3.Not(z3.Select(res, d.future(x))),
+        z3.Select(tick, d.future(x)) == d.insert_order(x)))), "x") \
+        & forall(Raw(d), lambda x: forall(Raw(d), lambda y: mk_bool(z3.Implies(
+            z3.And(z3.Select(cnt, x) > 0, z3.Select(cnt, y) > 0, d.insert_order(x) == d.insert_order(y)), x == y)), "y"), "x")
+
+
+def _pctx_cur():
+    from pyvc import ctx as _ctx
+    return _ctx.cur()
+
+
+def pre_head_blocked(o):
+    """granted as soon as capacity allows: the highest-priority (then earliest) blocked request does not fit"""
+    if not o._waiters:
+        return True
+    m = o._waiters._a_min()
+    return o._available < mk_num(_K["PW"].dt.amount(m))
+
+
+def _pre_served_now(L):
+    if not hasattr(L, "waiter"):
+        return True
+    d = _K["PW"].dt
+    pops = _pctx_cur().ghost_args.get("heap_pops", [])
+    if len(pops) != 1:
+        return False
+    w = _K["PW"].unwrap(L.waiter)
+    f = L.waiter.future
+    gref = field_term(f, "g_vref")
+    g = ObjProxy(gref, _K["PGrant"])
+    return mk_bool(pops[0] == w) & f._resolved & mk_bool(field_term(f, "_value") == Any._f("ref", z3.IntSort())(gref)) \
+        & (g._amount == L.waiter.amount) & same(g._resource, L.self) & Not(g._released) & (g._priority == L.waiter.priority)
+
+
+_PRE_LOOP = loop(F_PRE, "PreemptibleResource._wake_waiters", 1, modifies=[
+    ("PreemptibleResource", "_waiters"), ("PreemptibleResource", "_available"), ("PreemptibleResource", "_acquisitions"),
+    ("PreemptibleResource", "_active_grants"), ("PreemptibleResource", "g_held"),
+    ("SimFuture", "_resolved"), ("SimFuture", "_value"), ("SimFuture", "g_vref")] + [
+    ("PreemptibleGrant", f) for f in ("_resource", "_amount", "_priority", "_released", "_preempted", "_on_preempt")], inv=[
+    ("conserved", lambda L: L.self._available + L.self.g_held == L.self.g_total0),
+    ("available-only-handed-out", lambda L: (L.self._available >= 0) & (L.self.g_held >= 0)
+        & (L.self._available <= L.self.g_avail0)),
+    ("queue-ok", lambda L: pre_queue_ok(L.self)),
+    ("taken-waiter-is-the-head-and-gets-a-grant-of-its-amount", _pre_served_now)])
+_PRE_LOOP.fresh_only = [("PreemptibleGrant", f) for f in ("_resource", "_amount", "_priority", "_released", "_preempted", "_on_preempt")]
+
 # ---------------------------------------------------------------------------- C. connection pool
-F_POOL = "happysimulator/components/client/connection_pool.py"
+F_POOL ="happysimulator/components/client/connection_pool.py"
 # g_pending = connections counted in _total_connections whose set-up has not finished (slots reserved by
 # processes suspended in _create_connection).  Anchored on the statements that exist with and without the
 # repair fixes/C09_pool-reserve-slot.diff: on the unrepaired tree both happen after the set-up delay.
@@ -273,6 +432,10 @@ _POOL_KEEPS = [("Entity", "_clock"), ("Entity", "name")] + [("ConnectionPool", f
 loop(F_POOL, "ConnectionPool._handle_warmup", 1, modifies="world", keeps=_POOL_KEEPS,
      types={"events": lambda: Seq(Ref(Event)), "connection": lambda: Ref(_K["Connection"])},
      inv=_POOL_INV)
+# `for timeout_event in events: if timeout_event.time < emit_time: timeout_event.time = emit_time` (the C07 repair of the
+# stale idle-timeout stamps): writes only Event.time, so the pool invariants carry over (frame checked)
+loop(F_POOL, "ConnectionPool._handle_warmup", 2, modifies=[("Event", "time")], types={"timeout_event": lambda: Ref(Event)},
+     inv=_POOL_INV)
 
 from specs.common import *  # noqa: E402,F401
 
@@ -291,8 +454,32 @@ PROPERTY = {
         "SimFuture.resolve(v) on a pending future marks it resolved with value v and reschedules the parked "
         "process at the current time; it touches no state of the capacity primitive (stub contract; the future "
         "mechanics are property C02)",
-        "futures handed out by Resource.acquire are resolved only by the resource (clients do not call "
-        "resolve() on them): needed for 'each waiter is granted at most once'",
+        "futures handed out by Resource.acquire / PreemptibleResource.acquire are resolved only by the resource (clients "
+        "do not call resolve() on them): needed for 'each waiter is granted at most once'",
+        "an unreleased Grant's amount is one of the summands of g_held (class invariant of Grant / PreemptibleGrant; the "
+        "ghost g_held is updated only where grants are created, released or preempted; lemma held-dominates-member)",
+        "waiter callbacks and pool/preemption hooks (fields typed Fn) are opaque: a call returns nothing and has no effect "
+        "on modelled state; the wake-up closures of the sync primitives only set their process' own flag (and, with the "
+        "repair, resolve its own future)",
+        "constructors of entities are verified 'as attached' (Entity.__init__ reduced to `self.name = name`; the clock is "
+        "injected by the simulation before use)",
+        "RWLock._has_waiting_writer returns exactly `some queued waiter is a writer` (stub: generator expression over a "
+        "queue of symbolic length is out of reach)",
+        "clients of Mutex/Condition release a lock only while holding it; therefore a lock that is held by, or queued for by, "
+        "the suspended process stays locked across its yields, and a set wake-up flag means the releaser handed the lock "
+        "over (rely clauses of Mutex.acquire / Condition.wait; loop invariant woken-means-the-lock-was-handed-over)",
+        "ConnectionPool: LatencyDistribution.get_latency returns a non-negative Duration; _remove_waiter only removes "
+        "entries (stub: generator expression out of reach); release() is called with the very Connection object that "
+        "was lent out under that id (precondition released-object-is-the-one-lent-under-its-id); while a process is "
+        "suspended in a connection set-up the other processes leave the slot it reserved alone (ghost assume after the "
+        "set-up yield)",
+        "PreemptibleResource._try_preempt only moves capacity from held grants back to available and does not touch the "
+        "wait queue (stub: sorted(..., key=) over a list of symbolic length is out of reach); in acquire on the repaired "
+        "tree _wake_waiters is used through its proved contract (effects on other processes' futures are not framed)",
+        "Bulkhead._forward_request takes exactly one permit under a fresh request id and emits one event (stub: dict "
+        "unpacking of a symbolic event context is out of reach)",
+        "pyvc/loops.py fresh_only (added for this property): fields of objects a loop body allocates itself are havoc'd "
+        "only for those objects; checked per iteration by the obligation `fresh-only:<Class.field>`",
     ],
 }
 
@@ -683,6 +870,65 @@ fn(Condition, "notify_all", ensures=[
     ("wakes-everyone", lambda s: slen(s.self._waiters) == 0),
     ("counted", lambda s: s.self._wakeups == s.old(s.self)._wakeups + slen(s.old(s.self)._waiters))])
 
+# ============================================================================ B4. blocking acquire / wait generators
+_K.update(Mutex=Mutex, Semaphore=Semaphore, RWLock=RWLock, Barrier=Barrier, Condition=Condition)
+
+
+def parks_or_progresses(just_acquired):
+    """'waiting consumes no simulated activity, so the clock advances to the release': a process suspends either
+    on a future (woken by the releaser), or for a positive delay, or - once - for zero delay right after it
+    obtained what it asked for.  A blocked process that re-schedules itself at zero delay keeps the event heap
+    busy at the current instant for ever (findings/c09_spin_wait.py)."""
+    def clause(s, y):
+        granted = take_granted()                       # ghost mark set right before the fast-path yield
+        if isinstance(y, ObjProxy):                    # a SimFuture
+            return True
+        return (y > 0) | ((y == 0) & granted)
+    return ("blocked-process-parks-instead-of-polling-at-zero-delay", clause)
+
+
+_CLOCK_RELY = lambda s, b, y: ns(s.self._clock._current_time) >= ns(b.pre(s.self._clock)._current_time)      # noqa: E731
+_STABLE = [("Entity", "_clock")]
+
+fn(Mutex, "acquire", args={"owner": OPTSTR}, uses=RESOLVE,
+   yields=Yields(at_yield=[parks_or_progresses(lambda s: s.self._acquisitions == s.pre(s.self)._acquisitions + 1)],
+                 stable=_STABLE, rely=[_CLOCK_RELY,
+                     # while this process holds the lock or waits in its queue, nobody unlocks it (release hands over)
+                     lambda s, b, y: implies(b.pre(s.self)._locked, s.self._locked)]),
+   ensures=[("caller-holds-the-lock-on-return", lambda s: s.self._locked)])
+
+fn(Semaphore, "acquire", args={"count": Int}, uses=RESOLVE,
+   yields=Yields(at_yield=[parks_or_progresses(lambda s: s.self._acquisitions == s.pre(s.self)._acquisitions + s.count)],
+                 stable=_STABLE, rely=[_CLOCK_RELY]),
+   ensures=[],
+   raises={ValueError: [("only-bad-count", lambda s: (s.count < 1) | (s.count > s.self._capacity)),
+                        ("frame", lambda s: unchanged(s, s.self))]})
+
+fn(RWLock, "acquire_read", uses=HWW + RESOLVE,
+   yields=Yields(at_yield=[parks_or_progresses(lambda s: s.self._read_acquisitions == s.pre(s.self)._read_acquisitions + 1)],
+                 stable=_STABLE, rely=[_CLOCK_RELY]), ensures=[])
+fn(RWLock, "acquire_write", uses=RESOLVE,
+   yields=Yields(at_yield=[parks_or_progresses(lambda s: s.self._write_acquisitions == s.pre(s.self)._write_acquisitions + 1)],
+                 stable=_STABLE, rely=[_CLOCK_RELY]), ensures=[])
+
+fn(Barrier, "wait", uses=RESOLVE,
+   yields=Yields(at_yield=[parks_or_progresses(lambda s: False)], stable=_STABLE, rely=[_CLOCK_RELY]),
+   ensures=[("arrival-index-in-range", lambda s: (0 <= s.result) & (s.result < s.self._parties)),
+            # the last party of a generation releases everybody at once, without suspending
+            ("last-arrival-releases-exactly-the-generation", lambda s: implies(
+                slen(s.old(s.self)._waiters) + 1 >= s.self._parties,
+                (slen(s.old(s.self)._waiters) + 1 == s.self._parties) & (slen(s.self._waiters) == 0)
+                & (s.self._generation == s.old(s.self)._generation + 1) & (s.result == 0)))],
+   raises={RuntimeError: []})
+
+fn(Condition, "wait", uses=RESOLVE, focus=lambda s: [s.self._lock],
+   yields=Yields(at_yield=[parks_or_progresses(lambda s: s.self._lock._acquisitions == s.pre(s.self._lock)._acquisitions + 1)],
+                 stable=_STABLE + [("Condition", "_lock")], rely=[_CLOCK_RELY,
+                     lambda s, b, y: implies(b.pre(s.self._lock)._locked, s.self._lock._locked)]),
+   requires=[("caller-holds-the-lock", lambda s: s.self._lock._locked)],
+   ensures=[("lock-reacquired-on-return", lambda s: s.self._lock._locked)],
+   raises={RuntimeError: []})
+
 # ============================================================================ C. ConnectionPool
 from happysimulator.components.client import connection_pool as _cp  # noqa: E402
 from happysimulator.components.client.connection_pool import ConnectionPool, Connection  # noqa: E402
@@ -807,3 +1053,118 @@ fn(ConnectionPool, "release", args={"connection": Ref(Connection)},
     ("handed-to-the-longest-waiter-or-parked-idle", _release_post),
     ("held-connections-conserved", lambda s: slen(s.self._active_connections) + slen(s.self._idle_connections)
         == slen(s.old(s.self)._active_connections) + slen(s.old(s.self)._idle_connections))])
+
+# ============================================================================ D. PreemptibleResource
+from happysimulator.components.industrial import preemptible_resource as _pre  # noqa: E402
+from happysimulator.components.industrial.preemptible_resource import PreemptibleResource, PreemptibleGrant  # noqa: E402
+
+PREEMPT_CB = Fn(None, "on_preempt")
+PW = valueclass("PriorityWaiter", [_pre._PriorityWaiter], [("priority", Real), ("insert_order", Int), ("amount", Int),
+                                                            ("future", Ref(SimFuture)), ("on_preempt", Opt(PREEMPT_CB))])
+PHEAP = Bag(PW, pw_lt)
+_K.update(PW=PW, PHEAP=PHEAP, PGrant=PreemptibleGrant)
+PROPERTY["trusted"].append("heapq contract (pyvc/bag.py): heappush adds one occurrence; heappop removes and returns an element "
+                           "with no remaining element below it; h[0] is such an element")
+
+cls(PreemptibleResource, fields={"_capacity": Int, "_available": Int, "_active_grants": Seq(Ref(PreemptibleGrant)),
+                                 "_waiters": PHEAP, "_insert_counter": Int, "_acquisitions": Int, "_releases": Int,
+                                 "_preemptions": Int, "_contentions": Int},
+    ghost={"g_held": Int, "g_total0": Int, "g_avail0": Int}, const=["_capacity"],
+    inv=[("capacity-positive", lambda o: o._capacity > 0),
+         ("never-over-admitted", lambda o: (0 <= o._available) & (o._available <= o._capacity)),
+         ("held-plus-available-is-capacity", lambda o: o._available + o.g_held == o._capacity),
+         ("queue-ok", pre_queue_ok),
+         ("granted-as-soon-as-capacity-allows", pre_head_blocked)])
+cls(PreemptibleGrant, fields={"_resource": Ref(PreemptibleResource), "_amount": Int, "_priority": Real, "_released": Bool,
+                              "_preempted": Bool, "_on_preempt": Opt(PREEMPT_CB)},
+    const=["_resource", "_amount", "_priority", "_on_preempt"],
+    inv=[("unreleased-amount-is-part-of-held", lambda o: o._released | ((o._amount > 0) & (o._amount <= o._resource.g_held))),
+         ("preempted-implies-released", lambda o: implies(o._preempted, o._released))])
+
+fn(_pre._PriorityWaiter, "__lt__", self_ty=PW, args={"other": PW}, inv=False, ensures=[
+    ("is-the-heap-order", lambda s: iff(s.result, mk_bool(pw_lt(PW.unwrap(s.self), PW.unwrap(s.other)))))])
+
+# _try_preempt sorts a filtered copy of the grant list by priority (`sorted(..., key=...)` over a list of symbolic
+# length: out of reach).  Assumed: it only moves capacity from held grants back to available.
+stub_of(PreemptibleResource, "_try_preempt", returns=Int, modifies=["_available", "_active_grants", "_preemptions", "g_held"],
+        ensures=[lambda s: s.self._available >= s.old(s.self)._available,
+                 lambda s: s.self._available + s.self.g_held == s.old(s.self)._available + s.old(s.self).g_held,
+                 lambda s: s.self.g_held >= 0])
+TRY_PREEMPT = [(PreemptibleResource, "_try_preempt")]
+
+# (also used as a stub by `acquire` on the repaired tree: `modifies` lists the fields of the resource it writes; the
+#  futures it resolves and the grants it creates belong to other processes and no clause of acquire speaks about them)
+fn(PreemptibleResource, "_wake_waiters", uses=RESOLVE, inv=False,
+   modifies=["_waiters", "_available", "_acquisitions", "_active_grants", "g_held", "g_total0", "g_avail0"],
+   requires=[lambda s: s.self._capacity > 0, lambda s: (0 <= s.self._available) & (s.self.g_held >= 0),
+             lambda s: pre_queue_ok(s.self)],
+   ensures=[("granted-as-soon-as-capacity-allows", lambda s: pre_head_blocked(s.self)),
+            ("conserved", lambda s: s.self._available + s.self.g_held == s.old(s.self)._available + s.old(s.self).g_held),
+            ("only-hands-out", lambda s: (0 <= s.self._available) & (s.self._available <= s.old(s.self)._available)),
+            ("queue-ok", lambda s: pre_queue_ok(s.self))])
+
+fn(PreemptibleResource, "acquire", args={"amount": Int, "priority": Real, "preempt": Bool, "on_preempt": Opt(PREEMPT_CB)},
+   uses=RESOLVE + TRY_PREEMPT + [(PreemptibleResource, "_wake_waiters")], ensures=[
+    ("immediate-only-if-it-fits", lambda s: implies(s.result._resolved,
+        s.self._available + s.amount <= s.self._capacity)),
+    ("blocked-only-if-it-does-not-fit", lambda s: implies(Not(s.result._resolved), s.self._available < s.amount)),
+   ], raises={ValueError: [("only-bad-amount", lambda s: (s.amount <= 0) | (s.amount > s.self._capacity)),
+                           ("frame", lambda s: unchanged(s, s.self))]})
+
+fn(PreemptibleGrant, "release", uses=RESOLVE, focus=lambda s: [s.self._resource], ensures=[
+    ("idempotent", lambda s: implies(s.old(s.self)._released, unchanged(s, s.self._resource))),
+    ("released", lambda s: s.self._released)])
+
+# ============================================================================ E. Bulkhead
+from happysimulator.components.resilience import bulkhead as _bh  # noqa: E402
+from happysimulator.components.resilience.bulkhead import Bulkhead  # noqa: E402
+
+cls(_bh.WaitingRequest, fields={"event": Ref(Event), "enqueue_time": TIME, "request_id": Int},
+    const=["event", "enqueue_time", "request_id"])
+cls(Bulkhead, fields={"_target": Ref(Entity), "_max_concurrent": Int, "_max_wait_queue": Int, "_max_wait_time": Opt(Real),
+                      "_active_count": Int, "_wait_queue": Seq(Ref(_bh.WaitingRequest)), "_next_request_id": Int,
+                      "_in_flight": Map(Int, Any), "_total_requests": Int, "_accepted_requests": Int,
+                      "_rejected_requests": Int, "_timed_out_requests": Int, "_queued_requests": Int,
+                      "_peak_concurrent": Int, "_peak_queue_depth": Int},
+    const=["_target", "_max_concurrent", "_max_wait_queue", "_max_wait_time"],
+    inv=[("config", lambda o: (o._max_concurrent >= 1) & (o._max_wait_queue >= 0)),
+         ("never-more-in-flight-than-max-concurrent", lambda o: (0 <= o._active_count) & (o._active_count <= o._max_concurrent)),
+         ("active-count-is-the-in-flight-table", lambda o: o._active_count == slen(o._in_flight)),
+         ("wait-queue-bounded", lambda o: slen(o._wait_queue) <= o._max_wait_queue),
+         ("request-ids-issued-once", lambda o: (o._next_request_id >= 0) & forall(Int, lambda k: implies(
+             contains(o._in_flight, k), k <= o._next_request_id), "k"))])
+
+# _forward_request builds the forwarded event with `{**event.context, 'metadata': {**...}}` (dict unpacking of a
+# symbolic context) and copies the completion hooks in a loop: out of reach.  Assumed: it takes exactly one permit
+# under a fresh request id and emits exactly one event.
+stub_of(Bulkhead, "_forward_request", returns=Seq(Ref(Event)),
+        modifies=["_next_request_id", "_active_count", "_accepted_requests", "_peak_concurrent", "_in_flight"],
+        requires=[("a-permit-is-free", lambda s: s.self._active_count < s.self._max_concurrent)],
+        ensures=[lambda s: s.self._active_count == s.old(s.self)._active_count + 1,
+                 lambda s: s.self._next_request_id == s.old(s.self)._next_request_id + 1,
+                 lambda s: slen(s.self._in_flight) == slen(s.old(s.self)._in_flight) + 1,
+                 lambda s: forall(Int, lambda k: iff(contains(s.self._in_flight, k),
+                                                     contains(s.old(s.self)._in_flight, k) | (k == s.self._next_request_id)), "k"),
+                 lambda s: slen(s.result) == 1])
+FWD = [(Bulkhead, "_forward_request")]
+
+fn(Bulkhead, "_enqueue_request", args={"event": Ref(Event)},
+   requires=[("queue-has-room", lambda s: slen(s.self._wait_queue) < s.self._max_wait_queue)],
+   ensures=[("joins-the-tail-once", lambda s: (slen(s.self._wait_queue) == slen(s.old(s.self)._wait_queue) + 1)
+             & mk_bool(z3.PrefixOf(seq_term(s.old(s.self)._wait_queue), seq_term(s.self._wait_queue)))),
+            ("no-permit-taken", lambda s: unchanged(s, s.self, "_active_count", "_in_flight"))])
+
+fn(Bulkhead, "handle_event", args={"event": Ref(Event)}, uses=FWD,
+   requires=[("a-client-request", lambda s: (s.event.event_type != "_bh_response") & (s.event.event_type != "_bh_timeout"))],
+   ensures=[
+    ("admitted-iff-a-permit-is-free", lambda s: iff(s.self._active_count == s.old(s.self)._active_count + 1,
+        s.old(s.self)._active_count < s.self._max_concurrent)),
+    ("queued-iff-no-permit-but-room-in-the-queue", lambda s: iff(slen(s.self._wait_queue) == slen(s.old(s.self)._wait_queue) + 1,
+        (s.old(s.self)._active_count >= s.self._max_concurrent) & (slen(s.old(s.self)._wait_queue) < s.self._max_wait_queue))),
+    ("rejected-otherwise", lambda s: iff(s.self._rejected_requests == s.old(s.self)._rejected_requests + 1,
+        (s.old(s.self)._active_count >= s.self._max_concurrent) & (slen(s.old(s.self)._wait_queue) >= s.self._max_wait_queue))),
+    ("counted-once", lambda s: s.self._total_requests == s.old(s.self)._total_requests + 1)])
+
+fn(PreemptibleGrant, "_do_preempt", inv=False, requires=[lambda s: Not(s.self._released)], ensures=[
+    ("marked-preempted-and-released", lambda s: s.self._preempted & s.self._released),
+    ("amount-leaves-held", lambda s: s.self._resource.g_held == s.old(s.self._resource).g_held - s.self._amount)])
